@@ -154,6 +154,15 @@ func (w *vWorld) realTopic(sym string, asUid types.Uid) string {
 	if uid, ok := w.users[sym]; ok {
 		return uid.UserId()
 	}
+	if strings.HasPrefix(sym, "P:") {
+		if ps := strings.Split(sym, ":"); len(ps) == 3 {
+			if u1, ok1 := w.users[ps[1]]; ok1 {
+				if u2, ok2 := w.users[ps[2]]; ok2 {
+					return u1.P2PName(u2)
+				}
+			}
+		}
+	}
 	return sym // me, fnd, sys, new..., or a raw (possibly ill-formed) name
 }
 
@@ -891,6 +900,7 @@ func (w *vWorld) op(ws []string) (string, bool) {
 		}
 		w.users[ws[1]] = uid
 		w.unames[uid] = ws[1]
+		w.ad.Calls = nil // set-up is not part of any request
 		return "ok", true
 	case "sess":
 		// sess S1 U1 auth|anon|root [bg]
